@@ -558,9 +558,55 @@ func c10Holes(e *gen.Expr) int {
 	return n
 }
 
+// c10Kth replaces the k-th visited (on Exit) boolean literal true by false: a positional replacement, which tells
+// the two slots of `a ?: b` apart although the parser puts one node into both.
+type c10Kth struct{ k, seen int }
+
+func (*c10Kth) Enter(*ast.Node) {}
+func (v *c10Kth) Exit(n *ast.Node) {
+	if b, ok := (*n).(*ast.BoolNode); ok && b.Value {
+		v.seen++
+		if v.seen == v.k {
+			ast.Patch(n, &ast.BoolNode{Value: false})
+		}
+	}
+}
+
 func c10EndToEnd(r *report.Run) (contexts, runs int64) {
 	sl := sliceHoles()
 	base := int64(1) << 40
+	// the short conditional: each of its three slots takes a replacement of its own
+	for i, c := range []struct {
+		src    string
+		k      int
+		direct string
+	}{
+		{"true ?: B", 1, "false ? true : B"}, {"true ?: B", 2, "true ? false : B"}, {"B ?: true", 1, "B ? B : false"},
+		{"[true ?: B, I]", 2, "[true ? false : B, I]"}, {"(true ?: B) ? 1 : 2", 2, "(true ? false : B) ? 1 : 2"}, {"all(A, {true ?: B})", 2, "all(A, {true ? false : B})"},
+		{"not (true ?: B)", 1, "not (false ? true : B)"},
+	} {
+		for _, m := range sl.modes {
+			want, errW := lib.Compile(c.direct, m)
+			got, errG := lib.Compile(c.src, m, expr.Patch(&c10Kth{k: c.k}))
+			if errW != nil || errG != nil {
+				if (errW == nil) != (errG == nil) {
+					r.Report(report.Violation{Sub: "positional-patch@" + m.String(), Kind: "compile-differs", Witness: fmt.Sprintf("%s, occurrence %d", c.src, c.k), Order: base - 100 + int64(i), Detail: map[string]interface{}{"patched_error": fmt.Sprint(errG), "direct_error": fmt.Sprint(errW)}})
+				}
+				continue
+			}
+			for _, b := range []int{0, 1} {
+				v := henv.Val{"B": b}
+				a, ea := lib.Run(want, m.RunEnv(henv.MakeFull(v), nil))
+				g, eg := lib.Run(got, m.RunEnv(henv.MakeFull(v), nil))
+				runs += 2
+				if (ea == nil) != (eg == nil) || (ea == nil && henv.Norm(a) != henv.Norm(g)) {
+					r.Report(report.Violation{Sub: "positional-patch@" + m.String(), Kind: "patch-not-applied", Witness: fmt.Sprintf("%s, occurrence %d", c.src, c.k), Order: base - 100 + int64(i),
+						Detail: map[string]interface{}{"env": v.Describe(), "patched": henv.Norm(g) + fmt.Sprint(eg), "direct": c.direct + " = " + henv.Norm(a) + fmt.Sprint(ea)}})
+					break
+				}
+			}
+		}
+	}
 	for n := 1; n <= sl.maxN[r.Tier]; n++ {
 		for _, top := range sl.tops {
 			sp := sl.g.Space(top, n)
